@@ -1,6 +1,7 @@
 package checks
 
 import (
+	"context"
 	"fmt"
 	"time"
 
@@ -23,11 +24,16 @@ type c08Race struct {
 	ending  int    // 0 socket close, 1 DISCONNECT(0x00) then close, 2 DISCONNECT(0x04) then close, 3 no ending (pure take-over)
 	clean   bool   // the racing CONNECT uses Clean Start 1
 	timer   bool   // the race is between the will timer and the CONNECT (ending happens first, sequentially)
+	queued  bool   // PUBLISH and DISCONNECT were sent back to back and both read by the broker before the take-over starts; the PUBLISH is held in OnMsgArrived until the race begins
 	version byte
 }
 
 func (r c08Race) want() (min, max int) {
 	switch {
+	case r.queued:
+		// the broker had read the DISCONNECT off the socket before the CONNECT was even sent:
+		// whatever ends the connection afterwards, the will is suppressed
+		return 0, 0
 	case r.ending == 1:
 		// the DISCONNECT races the CONNECT: when the take-over is processed first the will
 		// is due exactly as without the DISCONNECT; when the DISCONNECT is processed first, never
@@ -47,7 +53,17 @@ func (r c08Race) want() (min, max int) {
 func c08RaceBody(obs *concObs, r c08Race) func() {
 	return func() {
 		*obs = concObs{}
-		w := harness.NewWorld(harness.DefaultConfig(), server.Hooks{})
+		hooks := server.Hooks{}
+		released := false
+		if r.queued {
+			hooks.OnMsgArrived = func(ctx context.Context, cl server.Client, req *server.MsgArrivedRequest) error {
+				if cl.ClientOptions().ClientID == "c" {
+					vsched.WaitUntil("msg-arrived-held", func() bool { return released })
+				}
+				return nil
+			}
+		}
+		w := harness.NewWorld(harness.DefaultConfig(), hooks)
 		watch := w.Dial("W")
 		watch.Connect(harness.ConnectOpts{ClientID: "watch", Clean: true, Version: refmqtt.V5})
 		watch.Subscribe(0, refmqtt.Sub{Filter: "w", QoS: 0})
@@ -85,7 +101,16 @@ func c08RaceBody(obs *concObs, r c08Race) func() {
 		if r.version == refmqtt.V5 {
 			nopts.Props = &refmqtt.Props{SessionExpiry: harness.U32(100)}
 		}
-		if r.timer {
+		if r.queued {
+			// both packets are in the broker's hands (read loop queued them) while the PUBLISH is still being handled
+			c.Send(&refmqtt.Packet{Type: refmqtt.PUBLISH, Topic: "x", Payload: []byte("p")})
+			c.Send(&refmqtt.Packet{Type: refmqtt.DISCONNECT})
+			vsched.Settle()
+			dialN()
+			vsched.Settle()
+			vsched.Go("release", func() { released = true })
+			vsched.Go("reconnect", func() { n.Send(harness.ConnectPacket(nopts)) })
+		} else if r.timer {
 			end()
 			vsched.Settle()
 			vsched.Advance(time.Duration(r.delay)*time.Second - time.Second)
@@ -151,6 +176,7 @@ func c08Races(quick bool) []c08Race {
 		{name: "willtimer-vs-reattach-delay5", delay: 5, ending: 0, clean: false, timer: true, version: refmqtt.V5},
 		{name: "takeover-only-delay5-cleanstart", delay: 5, ending: 3, clean: true, version: refmqtt.V5},
 		{name: "willtimer-vs-cleanstart-delay5", delay: 5, ending: 0, clean: true, timer: true, version: refmqtt.V5},
+		{name: "queued-disconnect-vs-takeover-delay0", delay: 0, ending: 3, queued: true, clean: false, version: refmqtt.V5},
 	}
 	if !quick {
 		rs = append(rs,
@@ -158,6 +184,8 @@ func c08Races(quick bool) []c08Race {
 			c08Race{name: "disconnect-vs-cleanstart-delay5", delay: 5, ending: 1, clean: true, version: refmqtt.V5},
 			c08Race{name: "close-vs-reattach-v3", delay: 0, ending: 0, clean: false, version: refmqtt.V311},
 			c08Race{name: "takeover-only-delay0", delay: 0, ending: 3, clean: false, version: refmqtt.V5},
+			c08Race{name: "queued-disconnect-vs-takeover-cleanstart-delay5", delay: 5, ending: 3, queued: true, clean: true, version: refmqtt.V5},
+			c08Race{name: "queued-disconnect-vs-takeover-v3", delay: 0, ending: 3, queued: true, clean: false, version: refmqtt.V311},
 		)
 	}
 	return rs
